@@ -123,7 +123,7 @@ def run_native(prop, tier, seed, extra=None):
     mod_path = os.path.join(ROOT, 'harness', 'native', prop + '.py')
     if not os.path.exists(mod_path):
         return None
-    out_path = os.path.join(ROOT, 'evidence', f'.native_{prop}.json')
+    out_path = os.path.join(os.environ.get('PYVC_EVIDENCE_DIR') or os.path.join(ROOT, 'evidence'), f'.native_{prop}.json')
     cmd = [VENV_PY, os.path.join(ROOT, 'harness', 'run_native.py'), prop, '--tier', tier, '--seed', str(seed),
            '--out', out_path]
     if extra:
@@ -131,6 +131,8 @@ def run_native(prop, tier, seed, extra=None):
     env = dict(os.environ)
     env['PYTHONWARNINGS'] = 'ignore'
     env.pop('PYTHONPATH', None)
+    if os.environ.get('EMSARRAY_SRC'):
+        env['PYTHONPATH'] = os.environ['EMSARRAY_SRC']      # development runs on a scratch tree: the native part uses the same tree
     for attempt in range(3):
         try:
             r = subprocess.run(cmd, capture_output=True, text=True, timeout=int(os.environ.get('NATIVE_TIMEOUT', 3000)),
